@@ -233,6 +233,38 @@ def r_resolution_order(cx):
               if ok else
               "after a %s of that name was found, Op::op can still fall through to the built-in table: a failing "
               "user definition silently becomes the built-in it shadows" % label, where)
+    # 3b. the three tables are asked for one and the same name: the operator name of the definition being instantiated
+    #     (not, say, the name in the outermost invocation, which stays the same all the way down a macro or pipeline)
+    def key_of(bb, idx):
+        a = f.arg_terms(bb)
+        t = a[idx] if len(a) > idx else None
+        for _ in range(6):
+            if t is None:
+                break
+            if t[0] == "refplace" and not t[3]:
+                t = f.local_value(t[2], f.end_point(bb))
+                continue
+            t = mir.strip_refs(t)
+            if t[0] == "call" and isinstance(t[1], str) and t[1].rsplit("::", 1)[-1] in ("deref", "as_str", "as_ref", "borrow", "clone") and t[2]:
+                t = t[2][0]
+                continue
+            break
+        return mir.strip_refs(t) if t is not None else None
+    names = {"get_op": key_of(get_op[0], 1), "get_resource": key_of(get_res[0], 1), "builtin": key_of(builtin[0], 0),
+             "is_resource_name": key_of(res_test[0], 0)}
+    vals = [v for v in names.values() if v is not None]
+    same = len(vals) == 4 and all(v == vals[0] for v in vals)
+    raw = cx.f.lib["adts"].get("op::raw_parameters::RawParameters")
+    fields = [x["name"] for x in raw["variants"][0]["fields"]] if raw else []
+    from_def = False
+    if same and vals[0][0] == "call" and isinstance(vals[0][1], str) and vals[0][1].endswith("operator_name") and vals[0][2]:
+        src = mir.strip_refs(vals[0][2][0])
+        from_def = src[0] == "proj" and isinstance(src[2], tuple) and src[2][0] == "f" and src[2][1] < len(fields) and \
+            fields[src[2][1]] == "definition" and mir.strip_refs(src[1]) == ("arg", 1)
+    cx.ob("R-RESOLUTION-ORDER", "same-name", bool(same and from_def),
+          "user operators, macros and built-ins are all looked up under the operator name of the definition at hand" if same and from_def else
+          "Op::op asks its tables for different names (%s): e.g. a user-registered operator is then found at top level "
+          "but not as a pipeline step or inside a macro" % ", ".join(k for k, v in names.items() if v != names["builtin"]), where)
     # 4. both lookups precede the builtin lookup on their side
     ok = not f.dominates(builtin[0], get_op[0]) and not f.dominates(builtin[0], get_res[0])
     cx.ob("R-RESOLUTION-ORDER", "builtin-last", ok, "the built-in table is consulted last" if ok else
